@@ -163,7 +163,8 @@ type loggerWriter struct {
 }
 
 func (l *loggerWriter) Write(p []byte) (int, error) {
-	p = bytes.TrimSpace(p)
-	l.logFunc(string(p))
+	// Report the whole of p as written: io.Writer must not return a short
+	// count with a nil error.
+	l.logFunc(string(bytes.TrimSpace(p)))
 	return len(p), nil
 }
